@@ -4,7 +4,7 @@ from hypothesis import strategies as st
 
 from vlib import env, gen  # noqa: F401
 from vlib.build import build_molecule, lib, positions
-from vlib.report import PropertyViolation
+from vlib.report import HarnessError, PropertyViolation
 from vlib.runner import Sub
 
 from checks import xmap_common as xc
@@ -66,7 +66,7 @@ def case_strategy(draw):
     else:
         t = np.zeros(3)
     base.update({"size": size, "rkind": rk, "R": np.asarray(R, float).tolist(), "t": t.tolist(),
-                 "how": draw(st.sampled_from(["fresh", "copy", "inplace"])),
+                 "how": draw(st.sampled_from(["fresh", "copy", "inplace", "inplace-atoms", "inplace-array", "inplace-residues"])),
                  "order": draw(st.sampled_from(["ref-first", "moved-first"])),
                  "seed1": draw(gen.SEEDS), "seed2": draw(gen.SEEDS),
                  "rescale": draw(st.sampled_from([None, None, None, 0.3, 1.0, 1.6])) if size == "3+" else None})
@@ -95,10 +95,25 @@ def check(case):
         # it for every later call alike (the comparisons below are between two calls)
         M.scale_factor = case["rescale"]
     np.random.seed(case["seed2"])
-    if case["how"] == "inplace":
-        # the construction reference object itself is moved rigidly (in place) and mapped again
+    if case["how"].startswith("inplace"):
+        # the construction reference object itself is moved rigidly (in place) and mapped again - through the setter of
+        # the whole array, atom by atom through the live views, by editing the stored arrays in place, or residue by residue
         out0 = positions(lib("map-apply", M, ref))
-        ref.atoms_positions = mpos.copy()
+        if case["how"] == "inplace":
+            ref.atoms_positions = mpos.copy()
+        elif case["how"] == "inplace-atoms":
+            for at, p_ in zip(ref, mpos):
+                at.position = p_.copy()
+        elif case["how"] == "inplace-array":
+            for at, p_ in zip(ref, mpos):
+                at.position[:] = p_
+        else:
+            k = 0
+            for res in ref.residues:
+                res.atoms_positions = mpos[k:k + len(res)].copy()
+                k += len(res)
+        if not np.array_equal(positions(ref), mpos):
+            raise HarnessError("the in-place route %s did not move the molecule" % case["how"])
         out1 = positions(lib("map-apply-moved", M, ref))
     else:
         if case["how"] == "fresh":
